@@ -27,7 +27,7 @@ class C06(Prop):
     ]
     modelled_not_verified = ("src/subject.rs, src/subscriber.rs, src/observer.rs(impl_rc_observer): hand "
                              "transcription (Subject/Subject.lean) validated on the generated histories; "
-                             "lock-level behaviour of SubjectThreads is not part of this file")
+                             "lock programs of SubjectThreads operations: Conc/Footprint.lean, compared with the H2 trace")
 
     def cases(self, tier, seed):
         rng = random.Random(seed)
@@ -42,10 +42,44 @@ class C06(Prop):
             for _ in range(n):
                 ops = sg.rand_history(rng, rng.randint(6, 24), behavior=False)
                 out.append(sg.mk_case("subject", fl, ops, "random", rng=rng))
+        # lock level (the premise of the C06T theorems): the lock program of every SubjectThreads operation as
+        # recorded through hook H2, compared token by token with the model's (the population of C10's suite
+        # `locks`); the oracle below checks the one fact the interleaving argument rests on
+        try:
+            import importlib
+            c10 = importlib.import_module("vlib.props.c10").PROP
+            for c in c10.cases(tier, seed):
+                if c.suite == "locks":
+                    c.meta = dict(c.meta, kind="locks-" + str(c.meta.get("kind")))
+                    out.append(c)
+        except Exception as ex:               # pragma: no cover
+            print(f"note: C06 skips the lock-level cases: {ex}")
         return out
 
     def oracle(self, case, lines, model_lines=None):
+        if case.suite == "locks":
+            return self.lock_oracle(case, lines)
         return sg.check_history(case, lines, behavior=False)
+
+    def lock_oracle(self, case, lines):
+        """A broadcast is one critical section of the subject's `observers` cell: every callback of an
+        emission runs while the emitting call still holds the cell it acquired first (otherwise a concurrent
+        next / complete / unsubscribe finds the subject empty or interleaves with the broadcast)."""
+        from .c10 import parse_tokens
+        for k, e in enumerate(case.events):
+            b = lines.get(k)
+            if b is None or e[0] not in ("next", "error", "complete"):
+                continue
+            if b == "PANIC":
+                return {"kind": "panic", "event": k, "detail": b}
+            toks = parse_tokens(b)
+            first = next((n for kind, n, held in toks if kind == "a"), None)
+            for kind, n, held in toks:
+                if kind == "c" and first is not None and first not in held:
+                    return {"kind": "broadcast-not-atomic", "event": k,
+                            "detail": f"callback of subscriber {n} runs with cells {held} held, the subject's "
+                                      f"cell {first} was released before the broadcast ended: {b}"}
+        return None
 
     def nontrivial(self, case, lines):
         return any(not b.startswith("o= ") for b in lines.values())
@@ -54,6 +88,9 @@ class C06(Prop):
         return f"{failure['kind']}|{case.suite}|{case.flavor}"
 
     def shrink_candidates(self, case):
+        if case.suite == "locks":
+            from .c10 import PROP as c10
+            return c10.shrink_candidates(case)
         return sg.shrink_candidates(case)
 
     def extra_coverage(self, cases, impl):
